@@ -723,3 +723,43 @@ def shrink(case):
         c = copy.deepcopy(case)
         c["ebs"] = None
         yield c
+
+
+# ----------------------------------------------------------------------------- second tie: translator
+# The five estimator formulas are re-generated from the source text of /repo on every run and proved equal to the
+# hand-written model (harness/translate_sobol.py).  A source construct outside the supported subset only disables this
+# second tie (recorded in the evidence); a generated definition that is no longer equal to the model is a broken proof
+# obligation: the concrete failing input, if any, is what the correspondence stream above reports.
+try:
+    EXTRA_COVERAGE
+except NameError:
+    EXTRA_COVERAGE = {}
+
+
+def extra_checks(tier):
+    import subprocess
+    import translate_sobol as ts
+    src = core.REPO / "xplique/attributions/global_sensitivity_analysis/sobol_estimators.py"
+    info = dict(source=str(src))
+    EXTRA_COVERAGE["translator_tie"] = info
+    try:
+        text = ts.generate_coq(src)
+    except (ts.TranslationError, SyntaxError, OSError) as e:
+        info.update(status="disabled: construct outside the supported subset", detail=str(e)[:300])
+        return []
+    d = core.BUILD / "gen"
+    d.mkdir(parents=True, exist_ok=True)
+    f = d / "C08Gen.v"
+    f.write_text(text)
+    p = subprocess.run(["coqc"] + core.COQFLAGS + [str(f)], cwd=d, capture_output=True, text=True, timeout=900)
+    closed = p.stdout.count("Closed under the global context")
+    if p.returncode == 0 and closed == 5:
+        info.update(status="ok", obligations=5, discharged=5,
+                    theorems=["gen_jansen_is_model", "gen_homma_is_model", "gen_janon_is_model", "gen_glen_is_model",
+                              "gen_saltelli_is_model"])
+        return []
+    info.update(status="generated definitions differ from the model", log=(p.stderr or p.stdout)[-1500:])
+    return [dict(property=PROP, broken="translator tie: a formula generated from sobol_estimators.py is no longer equal to "
+                 "the model the C08 theorems are about", generated_file=str(f), log=(p.stderr or p.stdout)[-3000:],
+                 no_failing_input=True,
+                 note="a concrete failing input, when the change alters values, is reported by the correspondence stream of this same run")]
